@@ -23,6 +23,7 @@
 (*                              listfile): session additions / everything without listfile lost    *)
 (*                                                                                       F-C06-d   *)
 (*        AppendFixKeyWrongKey  fix_key sets the flag but encrypts with the unadjusted key F-C06-e *)
+(*        InsertRenameKeepsOldKey  rename_file leaves encrypted data under the old name's key      *)
 (* `devs` records which deviation changed the outcome of the behaviour so far.  Gen_MpqHashTable   *)
 (* runs the Code machine to generate histories and to predict what the real code will do.          *)
 (*                                                                                                 *)
@@ -37,6 +38,7 @@ CONSTANTS H,          \* number of hash slots
           Home,       \* [UNames \cup {LF, AT} -> 0..H-1]
           InitSeq,    \* names present in the starting archive, in builder order (sequence, no LF)
           InitTok,    \* [name in InitSeq -> token]
+          InitRaw,    \* names of InitSeq stored raw (neither compressed nor encrypted)
           HasLF0,     \* starting archive carries a (listfile)
           HasAT0,     \* starting archive carries an (attributes) file (occupies a slot and a block)
           Slack, FU,
@@ -46,21 +48,30 @@ CONSTANTS H,          \* number of hash slots
 LF   == "(listfile)"
 AT   == "(attributes)"
 None == "none"
-Bad  == "corrupt"     \* token of a file whose bytes are not the ones that were stored
+\* tokens of a file whose bytes are not the ones that were stored, tagged with the cause:
+\* "corrupt:<cause>" reads as garbage, "corrupt!:<cause>" (stored form compressed) fails to read
+Causes    == {"overrun", "fixkey", "renkey", "unopenable"}
+Bad(c)    == "corrupt:" \o c
+BadErr(c) == "corrupt!:" \o c
+BadErrToks == {BadErr(c) : c \in Causes}
+BadToks    == {Bad(c) : c \in Causes} \cup BadErrToks
 
 VARIABLES hslots,     \* [0..H-1 -> [st: {"E","D","O"}, nm, blk]]   session copy of the hash table
-          hblocks,    \* Seq([tok, pos])  session copy of the block table (tok of LF = set of names)
+          hblocks,    \* Seq([tok, pos, z, kn])  session copy of the block table (tok of LF = set of names;
+                      \* z: stored compressed or encrypted; kn: name whose key encrypts the data,
+                      \* "" = not encrypted, "!" = a key no reader derives)
           hcursor,    \* next append position (next_file_offset)
           ddisk,      \* on-disk image: [slots, blocks, tpos, dmg, ok, lf]
           wopen, wdirty,
           vlf,        \* the archive (as opened) has a (listfile)
           stale,      \* names listed by the Archive object opened at open() / after compact()
+          staleMap,   \* what that (stale) Archive object reads: the map on disk when it was opened
           pc, opr, pidx, pcnt,   \* current call, its arguments, probe position, slots examined
           hsnap,      \* abstract session view when the current call began
           lastres,    \* result class of the last completed call
           devs,       \* deviations that have altered the outcome so far (Code machine)
           vcalls      \* number of calls begun
-hvars == <<hslots, hblocks, hcursor, ddisk, wopen, wdirty, vlf, stale, pc, opr, pidx, pcnt, hsnap, lastres, devs, vcalls>>
+hvars == <<hslots, hblocks, hcursor, ddisk, wopen, wdirty, vlf, stale, staleMap, pc, opr, pidx, pcnt, hsnap, lastres, devs, vcalls>>
 
 Slots == 0..(H - 1)
 E == [st |-> "E", nm |-> "", blk |-> 0]
@@ -73,13 +84,18 @@ SetMax(S) == IF S = {} THEN 0 ELSE CHOOSE x \in S : \A y \in S : x >= y
 
 (* ---------------------------------- functional views ------------------------------------------ *)
 SlotOf(slots, n)   == {i \in Slots : slots[i].st = "O" /\ slots[i].nm = n}
-TokAt(blocks, dmg, b) == IF b \in dmg THEN Bad ELSE blocks[b].tok
+\* what a reader obtains for name n through block b: the file key is derived from the NAME
+TokAt(blocks, dmg, b, n) ==
+    LET cause == IF b \in dmg THEN "overrun" ELSE IF blocks[b].kn = "!" THEN "fixkey" ELSE "renkey" IN
+    IF b \in dmg \/ blocks[b].kn \notin {"", n}
+    THEN (IF blocks[b].cmp THEN BadErr(cause) ELSE Bad(cause))
+    ELSE blocks[b].tok
 \* the abstract map denoted by a table image
 View(slots, blocks, dmg) ==
     [n \in UNames |-> IF SlotOf(slots, n) = {} THEN None
-                      ELSE TokAt(blocks, dmg, slots[CHOOSE i \in SlotOf(slots, n) : TRUE].blk)]
+                      ELSE TokAt(blocks, dmg, slots[CHOOSE i \in SlotOf(slots, n) : TRUE].blk, n)]
 SessView == View(hslots, hblocks, ddisk.dmg)
-DiskView == IF ddisk.ok THEN View(ddisk.slots, ddisk.blocks, ddisk.dmg) ELSE [n \in UNames |-> Bad]
+DiskView == IF ddisk.ok THEN View(ddisk.slots, ddisk.blocks, ddisk.dmg) ELSE [n \in UNames |-> BadErr("unopenable")]
 
 \* what find_file_entry computes, as a function: walk from the home slot until the name, an Empty
 \* slot, or a full circle
@@ -111,7 +127,7 @@ LFRewrite(st, content) ==
              s1 == [st.slots EXCEPT ![i] = D]
              j  == FirstFreeFrom(s1, Home[LF], 0)
          IN [slots  |-> [s1 EXCEPT ![j] = Occ(LF, b)],
-             blocks |-> [st.blocks EXCEPT ![b] = [tok |-> content, pos |-> st.cursor]],
+             blocks |-> [st.blocks EXCEPT ![b] = [tok |-> content, pos |-> st.cursor, z |-> FALSE, cmp |-> FALSE, kn |-> ""]],
              cursor |-> st.cursor + FU]
 LFAdd(st, n) == IF ~vlf \/ SlotOf(st.slots, LF) = {} THEN st ELSE LFRewrite(st, LFContent(st.slots, st.blocks) \cup {n})
 LFDel(st, n) == IF ~vlf \/ SlotOf(st.slots, LF) = {} THEN st ELSE LFRewrite(st, LFContent(st.slots, st.blocks) \ {n})
@@ -123,15 +139,19 @@ StartNames  == InitSeq \o (IF HasLF0 THEN <<LF>> ELSE <<>>) \o (IF HasAT0 THEN <
 StartBlocks == [k \in 1..Len(StartNames) |->
                    [tok |-> IF StartNames[k] = LF THEN {InitSeq[j] : j \in 1..Len(InitSeq)}
                             ELSE IF StartNames[k] = AT THEN "attrs" ELSE InitTok[StartNames[k]],
-                    pos |-> (k - 1) * FU]]
+                    pos |-> (k - 1) * FU, z |-> StartNames[k] \notin InitRaw, cmp |-> StartNames[k] \notin InitRaw, kn |-> ""]]
 StartSlots  == BuildSlots([i \in Slots |-> E], StartNames, 1)
-StartImage  == [slots |-> StartSlots, blocks |-> StartBlocks, tpos |-> Len(StartNames) * FU, dmg |-> {}, ok |-> TRUE, lf |-> HasLF0]
+\* slk: alignment slack behind the block table of this file; cn: block count when the file was produced
+\* by compact() (-1: it was not)
+StartImage  == [slots |-> StartSlots, blocks |-> StartBlocks, tpos |-> Len(StartNames) * FU, dmg |-> {}, ok |-> TRUE, lf |-> HasLF0,
+                slk |-> Slack, cn |-> -1]
 
-NoOp == [k |-> "none", n |-> "", m |-> "", c |-> None, rep |-> FALSE, enc |-> "none", blk |-> 0, fa |-> -1]
+NoOp == [k |-> "none", n |-> "", m |-> "", c |-> None, rep |-> FALSE, enc |-> "none", comp |-> "none", blk |-> 0, fa |-> -1]
 
 HInit == /\ ddisk = StartImage
          /\ hslots = StartSlots /\ hblocks = StartBlocks /\ hcursor = 0
          /\ wopen = FALSE /\ wdirty = FALSE /\ vlf = HasLF0 /\ stale = {}
+         /\ staleMap = View(StartSlots, StartBlocks, {})
          /\ pc = "idle" /\ opr = NoOp /\ pidx = 0 /\ pcnt = 0
          /\ hsnap = View(StartSlots, StartBlocks, {}) /\ lastres = "ok" /\ devs = {} /\ vcalls = 0
 
@@ -151,23 +171,27 @@ Open == /\ ~wopen /\ pc = "idle" /\ ddisk.ok /\ NewCall
         /\ wopen' = TRUE /\ wdirty' = FALSE
         /\ hslots' = ddisk.slots /\ hblocks' = ddisk.blocks /\ vlf' = ddisk.lf
         \* get_archive_end_offset: max(end of tables, end of file data), aligned
-        /\ hcursor' = Max2(ddisk.tpos + Len(ddisk.blocks) + Slack, DataEnd(ddisk.blocks))
+        /\ hcursor' = Max2(ddisk.tpos + Len(ddisk.blocks) + ddisk.slk, DataEnd(ddisk.blocks))
         /\ stale' = IF ddisk.lf /\ SlotOf(ddisk.slots, LF) # {} THEN LFContent(ddisk.slots, ddisk.blocks) \cap UNames ELSE {}
         /\ hsnap' = View(ddisk.slots, ddisk.blocks, ddisk.dmg)
+        /\ staleMap' = View(ddisk.slots, ddisk.blocks, ddisk.dmg)
         /\ Finish("ok")
         /\ UNCHANGED <<ddisk, devs>>
 
 (* flush = WriteTables + UpdateHeader.  Designed: relocate the tables behind the data and always   *)
 (* update the header.                                                                              *)
 WriteTablesRelocate ==
-    /\ ddisk' = [slots |-> hslots, blocks |-> hblocks, tpos |-> hcursor, dmg |-> ddisk.dmg, ok |-> TRUE, lf |-> vlf]
+    /\ ddisk' = [ddisk EXCEPT !.slots = hslots, !.blocks = hblocks, !.tpos = hcursor, !.lf = vlf, !.slk = Slack]
     /\ hcursor' = hcursor + Len(hblocks) + Slack
     /\ UNCHANGED devs
 (* deviation F-C06-a: the grown table is written at the position recorded in the header at open *)
 WriteTablesInPlace ==
     LET hit == Overrun(ddisk.tpos, hblocks) \ ddisk.dmg IN
-    /\ ddisk' = [slots |-> hslots, blocks |-> hblocks, tpos |-> ddisk.tpos, dmg |-> ddisk.dmg \cup hit, ok |-> TRUE, lf |-> vlf]
-    /\ devs' = IF hit \cap LiveBlocks(hslots) # {} THEN devs \cup {"overrun"} ELSE devs
+    /\ ddisk' = [ddisk EXCEPT !.slots = hslots, !.blocks = hblocks, !.dmg = ddisk.dmg \cup hit, !.lf = vlf]
+    \* "growth": the table of a compact()ed file grew in place; its real alignment slack is not known
+    \* to the model (0 is assumed: the worst case), so an overrun is possible from the first block on
+    /\ devs' = (IF hit \cap LiveBlocks(hslots) # {} THEN devs \cup {"overrun"} ELSE devs)
+                   \cup (IF ddisk.cn >= 0 /\ Len(hblocks) > ddisk.cn THEN {"growth"} ELSE {})
     /\ UNCHANGED hcursor
 (* deviation F-C06-c (V3/V4): placeholder HET/BET written at the file cursor; the header is only   *)
 (* rewritten when the block count changed; without a listfile rewrite the cursor is 0              *)
@@ -178,7 +202,7 @@ WriteTablesV3Broken ==
 
 Sync(closing) == /\ wopen /\ pc = "idle" /\ NewCall
                  /\ wdirty' = FALSE /\ wopen' = ~closing /\ hsnap' = SessView /\ Finish("ok")
-                 /\ UNCHANGED <<hslots, hblocks, vlf, stale>>
+                 /\ UNCHANGED <<hslots, hblocks, vlf, stale, staleMap>>
 \* flush() / drop() with nothing pending: returns at once
 FlushClean    == ~wdirty /\ Sync(FALSE) /\ UNCHANGED <<ddisk, hcursor, devs>>
 CloseClean    == ~wdirty /\ Sync(TRUE)  /\ UNCHANGED <<ddisk, hcursor, devs>>
@@ -200,120 +224,149 @@ FindOutcome == LET s == hslots[pidx] IN
 \* find_file_entry: examine the next slot
 FindStep == /\ pc \in FindPcs /\ FindOutcome = -2
             /\ pidx' = (pidx + 1) % H /\ pcnt' = pcnt + 1
-            /\ UNCHANGED <<hslots, hblocks, hcursor, ddisk, wopen, wdirty, vlf, stale, pc, opr, hsnap, lastres, devs, vcalls>>
+            /\ UNCHANGED <<hslots, hblocks, hcursor, ddisk, wopen, wdirty, vlf, stale, staleMap, pc, opr, hsnap, lastres, devs, vcalls>>
 
-Begin(kind, n, m, c, rep, enc) ==
+Begin(kind, n, m, c, rep, enc, comp) ==
     /\ wopen /\ pc = "idle" /\ NewCall
-    /\ opr' = [k |-> kind, n |-> n, m |-> m, c |-> c, rep |-> rep, enc |-> enc, blk |-> 0, fa |-> -1]
+    /\ opr' = [k |-> kind, n |-> n, m |-> m, c |-> c, rep |-> rep, enc |-> enc, comp |-> comp, blk |-> 0, fa |-> -1]
     /\ pc' = CASE kind = "add" -> "add_find" [] kind = "remove" -> "rm_find" [] OTHER -> "rn_find_a"
     /\ pidx' = Home[n] /\ pcnt' = 0 /\ hsnap' = SessView
-    /\ UNCHANGED <<hslots, hblocks, hcursor, ddisk, wopen, wdirty, vlf, stale, lastres, devs>>
+    /\ UNCHANGED <<hslots, hblocks, hcursor, ddisk, wopen, wdirty, vlf, stale, staleMap, lastres, devs>>
 
-BeginAdd(n, c, rep, enc) == Begin("add", n, n, c, rep, enc)
-BeginRemove(n)           == Begin("remove", n, n, None, FALSE, "none")
-BeginRename(a, b)        == Begin("rename", a, b, None, FALSE, "none")
+BeginAdd(n, c, rep, enc, comp) == Begin("add", n, n, c, rep, enc, comp)
+BeginRemove(n)                 == Begin("remove", n, n, None, FALSE, "none", "none")
+BeginRename(a, b)              == Begin("rename", a, b, None, FALSE, "none", "none")
 
 Fail(res) == /\ Finish(res)
-             /\ UNCHANGED <<hslots, hblocks, hcursor, ddisk, wopen, wdirty, vlf, stale, hsnap, devs, vcalls>>
+             /\ UNCHANGED <<hslots, hblocks, hcursor, ddisk, wopen, wdirty, vlf, stale, staleMap, hsnap, devs, vcalls>>
 
 (* add_file_data after the lookup *)
 AddRefuseExists == pc = "add_find" /\ FindOutcome >= 0 /\ ~opr.rep /\ Fail("exists")
 \* designed: a new name on a table without Empty/Deleted slot is refused BEFORE anything is modified
 AddRefuseFull   == pc = "add_find" /\ FindOutcome = -1 /\ NoFree(hslots) /\ Fail("full")
 \* MarkDeleted (replace) + AppendData at the cursor + GrowBlockTable, then the insertion loop
-AddAppendWith(tokc, dv) ==
+AddAppendWith(keyname, dv) ==
     LET f == FindOutcome IN
     /\ pc = "add_find" /\ f # -2 /\ (f >= 0 => opr.rep)
     /\ hslots' = IF f >= 0 THEN [hslots EXCEPT ![f] = D] ELSE hslots
-    /\ hblocks' = Append(hblocks, [tok |-> tokc, pos |-> hcursor])
+    /\ hblocks' = Append(hblocks, [tok |-> opr.c, pos |-> hcursor, z |-> (opr.comp # "none" \/ opr.enc # "none"), cmp |-> opr.comp # "none", kn |-> keyname])
     /\ devs' = devs \cup dv
     /\ hcursor' = hcursor + FU
     /\ opr' = [opr EXCEPT !.blk = Len(hblocks) + 1]
     /\ pc' = "add_ins" /\ pidx' = Home[opr.n] /\ pcnt' = 0
-    /\ UNCHANGED <<ddisk, wopen, wdirty, vlf, stale, hsnap, lastres, vcalls>>
-AddAppend       == (FindOutcome = -1 => ~NoFree(hslots)) /\ AddAppendWith(opr.c, {})
+    /\ UNCHANGED <<ddisk, wopen, wdirty, vlf, stale, staleMap, hsnap, lastres, vcalls>>
+KeyName         == IF opr.enc = "none" THEN "" ELSE opr.n
+AddAppend       == (FindOutcome = -1 => ~NoFree(hslots)) /\ AddAppendWith(KeyName, {})
 \* the implementation has no pre-check ...
-AddAppendNoCheck == opr.enc # "fix" /\ AddAppendWith(opr.c, {})
+AddAppendNoCheck == opr.enc # "fix" /\ AddAppendWith(KeyName, {})
 \* ... and (deviation F-C06-e) fix_key sets the flag but encrypts with the unadjusted key: a
 \* conforming reader cannot decrypt what was stored
-AddAppendFixKeyWrongKey == opr.enc = "fix" /\ AddAppendWith(Bad, {"fixkey"})
+AddAppendFixKeyWrongKey == opr.enc = "fix" /\ AddAppendWith("!", {"fixkey"})
 
 \* the call completes: apply the listfile maintenance `after` to [slots, blocks, cursor]
-Complete(slots1, after(_)) ==
-    LET st == after([slots |-> slots1, blocks |-> hblocks, cursor |-> hcursor]) IN
+Complete(slots1, blocks1, after(_)) ==
+    LET st == after([slots |-> slots1, blocks |-> blocks1, cursor |-> hcursor]) IN
     /\ hslots' = st.slots /\ hblocks' = st.blocks /\ hcursor' = st.cursor
     /\ wdirty' = TRUE /\ Finish("ok")
-    /\ UNCHANGED <<ddisk, wopen, vlf, stale, hsnap, devs, vcalls>>
+    /\ UNCHANGED <<ddisk, wopen, vlf, stale, staleMap, hsnap, vcalls>>
 
 \* add_to_hash_table: a free (Empty or Deleted) slot takes the entry
-InsertAt ==
-    /\ pc \in InsPcs /\ Free(hslots[pidx])
-    /\ IF pc = "add_ins"
-       THEN Complete([hslots EXCEPT ![pidx] = Occ(opr.n, opr.blk)], LAMBDA st : LFAdd(st, opr.n))
-       ELSE Complete([hslots EXCEPT ![pidx] = Occ(opr.m, opr.blk)], LAMBDA st : LFAdd(LFDel(st, opr.n), opr.m))
+InsertAdd ==
+    /\ pc = "add_ins" /\ Free(hslots[pidx])
+    /\ Complete([hslots EXCEPT ![pidx] = Occ(opr.n, opr.blk)], hblocks, LAMBDA st : LFAdd(st, opr.n))
+    /\ UNCHANGED devs
+\* designed: the file key depends on the name, so renaming an encrypted file re-encrypts its data
+InsertRenameReencrypt ==
+    /\ pc = "rn_ins" /\ Free(hslots[pidx])
+    /\ Complete([hslots EXCEPT ![pidx] = Occ(opr.m, opr.blk)],
+                [hblocks EXCEPT ![opr.blk].kn = IF @ = "" THEN "" ELSE opr.m],
+                LAMBDA st : LFAdd(LFDel(st, opr.n), opr.m))
+    /\ UNCHANGED devs
+\* deviation (found by this check): rename_file only moves the hash entry; encrypted data stays
+\* encrypted under the key of the OLD name and reads back as garbage under the new one
+InsertRenameKeepsOldKey ==
+    /\ pc = "rn_ins" /\ Free(hslots[pidx])
+    /\ Complete([hslots EXCEPT ![pidx] = Occ(opr.m, opr.blk)], hblocks, LAMBDA st : LFAdd(LFDel(st, opr.n), opr.m))
+    /\ devs' = IF hblocks[opr.blk].kn \notin {"", "!", opr.m} THEN devs \cup {"renkey"} ELSE devs
 InsertAdvance ==
     /\ pc \in InsPcs /\ ~Free(hslots[pidx]) /\ pcnt + 1 < H
     /\ pidx' = (pidx + 1) % H /\ pcnt' = pcnt + 1
-    /\ UNCHANGED <<hslots, hblocks, hcursor, ddisk, wopen, wdirty, vlf, stale, pc, opr, hsnap, lastres, devs, vcalls>>
+    /\ UNCHANGED <<hslots, hblocks, hcursor, ddisk, wopen, wdirty, vlf, stale, staleMap, pc, opr, hsnap, lastres, devs, vcalls>>
 \* designed bound of the loop (never reached: AddRefuseFull fires first; rename frees a slot first)
 InsertGiveUp == pc \in InsPcs /\ ~Free(hslots[pidx]) /\ pcnt + 1 = H /\ Fail("full")
 \* deviation F-C06-b: no bound; on a table without free slot the loop cycles forever
 InsertSpin ==
     /\ pc \in InsPcs /\ ~Free(hslots[pidx]) /\ pcnt + 1 >= H
     /\ pidx' = (pidx + 1) % H /\ pcnt' = H /\ devs' = devs \cup {"full"}
-    /\ UNCHANGED <<hslots, hblocks, hcursor, ddisk, wopen, wdirty, vlf, stale, pc, opr, hsnap, lastres, vcalls>>
+    /\ UNCHANGED <<hslots, hblocks, hcursor, ddisk, wopen, wdirty, vlf, stale, staleMap, pc, opr, hsnap, lastres, vcalls>>
 Hung == pc \in InsPcs /\ pcnt >= H
 
 RemoveRefuse == pc = "rm_find" /\ FindOutcome = -1 /\ Fail("notfound")
 RemoveMark   == /\ pc = "rm_find" /\ FindOutcome >= 0
-                /\ Complete([hslots EXCEPT ![FindOutcome] = D], LAMBDA st : LFDel(st, opr.n))
+                /\ Complete([hslots EXCEPT ![FindOutcome] = D], hblocks, LAMBDA st : LFDel(st, opr.n))
+                /\ UNCHANGED devs
 
 RenameRefuseSrc == pc = "rn_find_a" /\ FindOutcome = -1 /\ Fail("notfound")
 RenameSrcFound  == /\ pc = "rn_find_a" /\ FindOutcome >= 0
                    /\ opr' = [opr EXCEPT !.fa = FindOutcome, !.blk = hslots[FindOutcome].blk]
                    /\ pc' = "rn_find_b" /\ pidx' = Home[opr.m] /\ pcnt' = 0
-                   /\ UNCHANGED <<hslots, hblocks, hcursor, ddisk, wopen, wdirty, vlf, stale, hsnap, lastres, devs, vcalls>>
+                   /\ UNCHANGED <<hslots, hblocks, hcursor, ddisk, wopen, wdirty, vlf, stale, staleMap, hsnap, lastres, devs, vcalls>>
 RenameRefuseDst == pc = "rn_find_b" /\ FindOutcome >= 0 /\ Fail("exists")
 RenameMark      == /\ pc = "rn_find_b" /\ FindOutcome = -1
                    /\ hslots' = [hslots EXCEPT ![opr.fa] = D]
                    /\ pc' = "rn_ins" /\ pidx' = Home[opr.m] /\ pcnt' = 0
-                   /\ UNCHANGED <<hblocks, hcursor, ddisk, wopen, wdirty, vlf, stale, opr, hsnap, lastres, devs, vcalls>>
+                   /\ UNCHANGED <<hblocks, hcursor, ddisk, wopen, wdirty, vlf, stale, staleMap, opr, hsnap, lastres, devs, vcalls>>
 
 (* ---------------------------------- compact ------------------------------------------------------ *)
 \* a fresh archive (builder, generated listfile) holding `keep` (name -> token); positions restart
 RECURSIVE SeqOf(_)
 SeqOf(S) == IF S = {} THEN <<>> ELSE LET x == CHOOSE y \in S : TRUE IN <<x>> \o SeqOf(S \ {x})
-Rebuilt(keep) ==
+Rebuilt(keep, zof, slk) ==
     LET names  == SeqOf({n \in UNames : keep[n] # None})
         all    == Append(names, LF)
         blocks == [k \in 1..Len(all) |-> [tok |-> IF all[k] = LF THEN {names[j] : j \in 1..Len(names)} ELSE keep[all[k]],
-                                          pos |-> (k - 1) * FU]]
+                                          pos |-> (k - 1) * FU,
+                                          z   |-> IF all[k] = LF THEN TRUE ELSE zof[all[k]].z,
+                                          cmp |-> IF all[k] = LF THEN TRUE ELSE zof[all[k]].c,
+                                          \* the builder encrypts under the name it is given
+                                          kn  |-> IF all[k] # LF /\ zof[all[k]].e THEN all[k] ELSE ""]]
     IN [slots |-> BuildSlots([i \in Slots |-> E], all, 1), blocks |-> blocks, tpos |-> Len(all) * FU,
-        dmg |-> {}, ok |-> TRUE, lf |-> TRUE]
-CompactTo(keep) ==
-    LET img == Rebuilt(keep) IN
+        dmg |-> {}, ok |-> TRUE, lf |-> TRUE, slk |-> slk, cn |-> Len(all)]
+\* the session's block of a live name
+BlkOf(n) == hslots[CHOOSE i \in SlotOf(hslots, n) : TRUE].blk
+ZOf == [n \in UNames |-> IF SlotOf(hslots, n) = {} THEN [z |-> FALSE, c |-> FALSE, e |-> FALSE]
+                         ELSE [z |-> hblocks[BlkOf(n)].z, c |-> hblocks[BlkOf(n)].cmp, e |-> hblocks[BlkOf(n)].kn # ""]]
+CompactTo(keep, slk) ==
+    LET img == Rebuilt(keep, ZOf, slk) IN
     /\ wopen /\ pc = "idle" /\ NewCall
     /\ ddisk' = img /\ hslots' = img.slots /\ hblocks' = img.blocks /\ vlf' = TRUE
-    /\ hcursor' = img.tpos + Len(img.blocks) + Slack
-    /\ stale' = {n \in UNames : keep[n] # None}
+    /\ hcursor' = img.tpos + Len(img.blocks) + slk
+    /\ stale' = {n \in UNames : keep[n] # None} /\ staleMap' = keep
     /\ wdirty' = FALSE /\ hsnap' = SessView /\ Finish("ok")
     /\ UNCHANGED wopen
 \* designed: the new file holds exactly the session's map
-CompactDesigned == CompactTo(SessView) /\ UNCHANGED devs
-\* deviation F-C06-d: names come from the stale Archive's listfile; an entry whose name is not
-\* listed there is copied under a placeholder name, i.e. lost under its own
+CompactDesigned == CompactTo(SessView, Slack) /\ UNCHANGED devs
+\* deviation F-C06-d: compact() works through the Archive object opened at open():
+\*  - names come from ITS listfile: an entry whose name is not listed there is copied under a
+\*    placeholder name, i.e. lost under its own;
+\*  - data stored compressed or encrypted is read through IT (read_current_file falls back to
+\*    archive.read_file): a file replaced or renamed-onto in this session comes back with the
+\*    content the name had when the archive was opened, or is skipped ("read error") if it had
+\*    none or an unreadable one.
 CompactStale ==
-    LET keep == [n \in UNames |-> IF n \in stale THEN SessView[n] ELSE None] IN
-    /\ CompactTo(keep)
+    LET keep == [n \in UNames |-> IF n \notin stale \/ SlotOf(hslots, n) = {} THEN None
+                                  ELSE IF hblocks[BlkOf(n)].z THEN (IF staleMap[n] \in BadErrToks THEN None ELSE staleMap[n])
+                                  ELSE TokAt(hblocks, ddisk.dmg, BlkOf(n), n)] IN
+    /\ CompactTo(keep, 0)
     /\ devs' = IF keep # SessView THEN devs \cup {"compact"} ELSE devs
 
 (* ---------------------------------- the two machines --------------------------------------------- *)
 \* steps shared by both
-CommonSteps == \/ FindStep \/ AddRefuseExists \/ InsertAt \/ InsertAdvance
+CommonSteps == \/ FindStep \/ AddRefuseExists \/ InsertAdd \/ InsertAdvance
                \/ RemoveRefuse \/ RemoveMark
                \/ RenameRefuseSrc \/ RenameSrcFound \/ RenameRefuseDst \/ RenameMark
-DesignSteps == CommonSteps \/ AddRefuseFull \/ AddAppend \/ InsertGiveUp
-CodeSteps   == CommonSteps \/ AddAppendNoCheck \/ AddAppendFixKeyWrongKey \/ InsertSpin
+DesignSteps == CommonSteps \/ AddRefuseFull \/ AddAppend \/ InsertRenameReencrypt \/ InsertGiveUp
+CodeSteps   == CommonSteps \/ AddAppendNoCheck \/ AddAppendFixKeyWrongKey \/ InsertRenameKeepsOldKey \/ InsertSpin
 DesignSyncs == Open \/ FlushClean \/ CloseClean \/ FlushRelocate \/ CloseRelocate \/ CompactDesigned
 CodeSyncs   == Open \/ FlushClean \/ CloseClean \/ FlushInPlace \/ CloseInPlace \/ FlushV3Broken \/ CloseV3Broken \/ CompactStale
 
